@@ -105,13 +105,26 @@ def atoms_of(formula):
 
 
 def check_c09(prog):
+    """Every ground program the engine produces for the program: with the defaults of create_from and, when the
+    program has evidence, with propagate_evidence=True (the default of the command line), where cycle breaking
+    treats query nodes and evidence nodes in two separate passes."""
+    out = _check_c09(prog, {})
+    if not out["skip"] and not out["violations"] and any(s[0] == "evidence" for s in prog):
+        out2 = _check_c09(prog, dict(propagate_evidence=True))
+        if not out2["skip"]:
+            out["violations"] = [(n, "[propagate_evidence=True] " + t) for n, t in out2["violations"]]
+            out["nontrivial"] = out["nontrivial"] or out2["nontrivial"]
+    return out
+
+
+def _check_c09(prog, ground_kwargs):
     from problog.program import PrologString
     from problog.formula import LogicFormula, LogicDAG
     from problog.cnf_formula import CNF
     src = progs.render(prog)
     out = dict(src=src, violations=[], nontrivial=False, skip=False)
     try:
-        lf = LogicFormula.create_from(PrologString(src))
+        lf = LogicFormula.create_from(PrologString(src), **ground_kwargs)
     except Exception:      # noqa  (grounding errors are the subject of C01/C02)
         out["skip"] = True
         return out
@@ -153,7 +166,13 @@ def check_c09(prog):
             if k is None:
                 return False
             return vals[k] if k > 0 else not vals[-k]
+        # with propagated evidence the translation of a query node assumes the evidence: only assignments under
+        # which the evidence holds (in the ground program's least model) are in the scope of the comparison
+        evidence_holds = (not ground_kwargs.get("propagate_evidence")
+                          or all(keyval(v_src, k) for _nm, k in lf.evidence()))
         for nm, k in names_src.items():
+            if not evidence_holds:
+                break
             a, b = keyval(v_src, k), keyval(v_dag, names_dag[nm])
             if a != b:
                 out["violations"].append(("cycle-breaking", "node %s: least-model value %s in the ground program, %s "
@@ -313,8 +332,14 @@ def run(pid, tier, seed):
     n = 2000 if tier == "thorough" else 250
     ps = progs.programs(seed * 15485863 + int(pid[1:]), n, max_choices=8, evidence=True)
     if pid == "C09":
+        # cycle breaking is what this property is about: as many programs again from the interlocking-cycles profile
+        import random
+        rng = random.Random(seed * 32452843 + 9)
+        ps = ps + [progs.cycle_program(rng, evidence=True) for _ in range(n)]
         col = Collector("C09:translation-validation",
-                        "%d seeded programs of the bounded family (stratified, incl. positive cycles); for each ground "
+                        "%d seeded programs of the bounded family (stratified, incl. positive cycles) plus as many of its "
+                        "interlocking-cycles profile, grounded with the defaults and (with evidence) with "
+                        "propagate_evidence=True; for each ground "
                         "program every assignment to its atoms (<= %d atoms, exhaustive): least-model node values before "
                         "vs after cycle breaking; the completion has exactly one model extending the assignment and it "
                         "carries the node values; constraints/weights/counts carried over; distinct = program texts; "
